@@ -3,11 +3,9 @@
 
   Everything here is about the MODEL (`Rbgp.Gr.Helper.Model`): `GrState` (`gprocess`), the two timer
   slots, the established session, the admin-down flag and the peer's routes with their stale marks
-  (`G`), driven by the glue functions (`step`).  `stateAfter evs` is the state a history leaves;
-  `InDomain evs` is the side condition of the quantifier made explicit: the GR / LLGR family sets
-  negotiated on a session are non-empty sets of families of that session (`negotiate_gr` /
-  `negotiate_llgr` return `None` for an empty intersection).  Statements marked (all states) need
-  no side condition at all.
+  (`G`), driven by the glue functions (`step`).  `stateAfter evs` is the state a history leaves.  No statement has a side condition on the events:
+  an `est` carries the peer's capabilities as they are (a GR / LLGR capability may be empty or name
+  families without MP-BGP) and `negotiate` computes what the session negotiates from them.
 
   Proofs: `Proofs.lean` (RIB procedures over family lists), `Inv.lean` (the invariant `Inv` and its
   preservation by every glue function), `Sim.lean` (simulation against Spec.lean).
@@ -30,13 +28,7 @@ example : (run exEvs).map (fun o => (o.routes.length, o.grTimer, o.llgrTimers)) 
     [(0, false, []), (1, false, []), (2, false, []), (3, false, []), (3, true, []), (3, true, []),
      (2, false, [0, 1]), (1, false, []), (1, false, []), (1, false, [])] := by decide
 
-/-! ## histories in the property's domain -/
-
-def InDomainFrom : G → List Ev → Prop
-  | _, [] => True
-  | g, e :: es => EvWF g e ∧ InDomainFrom (step g e) es
-
-def InDomain (evs : List Ev) : Prop := InDomainFrom {} evs
+/-! ## every history -/
 
 def stateAfterFrom (g : G) : List Ev → G
   | [] => g
@@ -44,33 +36,34 @@ def stateAfterFrom (g : G) : List Ev → G
 
 def stateAfter (evs : List Ev) : G := stateAfterFrom {} evs
 
-theorem inv_after_from (g : G) (evs : List Ev) (h : Inv g) (hd : InDomainFrom g evs) : Inv (stateAfterFrom g evs) := by
+theorem inv_after_from (g : G) (evs : List Ev) (h : Inv g) : Inv (stateAfterFrom g evs) := by
   induction evs generalizing g with
   | nil => exact h
-  | cons e es ih => exact ih _ (step_inv h e hd.1).1 hd.2
+  | cons e es ih => exact ih _ (step_inv h e).1
 
-/-- The invariant `Inv` (Inv.lean) holds after every in-domain history. -/
-theorem inv_after (evs : List Ev) (hd : InDomain evs) : Inv (stateAfter evs) :=
-  inv_after_from {} evs inv_init hd
-
-example : InDomain exEvs := by
-  simp only [InDomain, exEvs, InDomainFrom, EvWF, SessWF]
-  decide
+/-- The invariant `Inv` (Inv.lean) holds after EVERY history: no side condition on the events.
+    (What a session negotiates is computed from the peer's capabilities by `negotiate`; a GR or
+    LLGR capability naming a family without MP-BGP, or an empty one, is an ordinary input.) -/
+theorem inv_after (evs : List Ev) : Inv (stateAfter evs) := inv_after_from {} evs inv_init
 
 /-! ## 1. `stale_implies_pending` -/
 
-/-- After every in-domain history: a route marked stale or LLGR-stale has the restart timer armed,
-    or the LLGR timer of its family armed, or the session is up and End-of-RIB of its family is
-    awaited (`awaitingOf`: the pending set of `PeerReconnected`). -/
-theorem stale_implies_pending (evs : List Ev) (hd : InDomain evs) (x : Route)
+/-- After every history: a route marked stale or LLGR-stale has the restart timer armed, or the
+    LLGR timer of its family armed, or the session is up and End-of-RIB of its family is awaited
+    (`awaitingOf`: the pending set of `PeerReconnected`). -/
+theorem stale_implies_pending (evs : List Ev) (x : Route)
     (hx : x ∈ (stateAfter evs).rib) (hm : marked x = true) :
     (stateAfter evs).grTimer = true ∨ x.fam ∈ (stateAfter evs).llgrTimers ∨
     ((stateAfter evs).sess.isSome = true ∧ x.fam ∈ awaitingOf (stateAfter evs)) :=
-  (inv_after evs hd).pending x hx hm
+  (inv_after evs).pending x hx hm
 
-/-- The invariant is inductive: one in-domain event preserves it, from ANY state satisfying it. -/
-theorem inv_inductive (g : G) (h : Inv g) (ev : Ev) (hw : EvWF g ev) : Inv (step g ev) :=
-  (step_inv h ev hw).1
+/-- The invariant is inductive: ANY event preserves it, from ANY state satisfying it. -/
+theorem inv_inductive (g : G) (h : Inv g) (ev : Ev) : Inv (step g ev) := (step_inv h ev).1
+
+/-- What a session negotiates for GR / LLGR are non-empty sets of families of the session, whatever
+    the peer's capabilities list (`negotiate_gr` / `negotiate_llgr` ∩ the MP-BGP families). -/
+theorem negotiated_within_session (fams : List Fam) (gr : Option NegGr) (llgr : Option (List Fam)) :
+    SessWF (negotiate fams gr llgr) := sessWF_negotiate fams gr llgr
 
 /-! ## 2. `drop_clears_other_families` -/
 
@@ -127,10 +120,10 @@ theorem drop_clears_other_families (g : G) (h : Inv g) (s : Sess) (hs : g.sess =
 /-! ## 3. `purge_spares_fresh` -/
 
 /-- While the session is up, no event other than an announcement replacing it, or the end of the
-    session itself, removes or marks an unmarked route: End-of-RIB, timer expiries, a failed
-    connection attempt, enable, a second `est`. -/
+    session itself, removes or marks an unmarked route: End-of-RIB, timer expiries (fired or
+    elapsed), a failed connection attempt, enable, a second `est`. -/
 theorem purge_spares_fresh (g : G) (h : Inv g) (s : Sess) (hs : g.sess = some s) (ev : Ev)
-    (hev : match ev with | .eor _ | .grTimer | .llgrTimer _ | .attempt | .enable | .est .. => True | _ => False)
+    (hev : match ev with | .eor _ | .grTimer | .llgrTimer _ | .attempt | .enable | .est .. | .wait => True | _ => False)
     (x : Route) (hx : x ∈ g.rib) (hm : marked x = false) : x ∈ (step g ev).rib := by
   have hsome : g.sess.isSome = true := by rw [hs]; rfl
   cases ev with
@@ -153,6 +146,7 @@ theorem purge_spares_fresh (g : G) (h : Inv g) (s : Sess) (hs : g.sess = some s)
   | attempt => simp only [step, attemptEnds, applyDisc_none]; exact hx
   | enable => exact hx
   | est fams gr llgr lr => simp only [step, hs]; exact hx
+  | wait => rw [show step g .wait = waitAll g from rfl, (waitAll_fields h).2.2 hsome]; exact hx
   | ann => exact absurd hev (by simp)
   | down => exact absurd hev (by simp)
   | force => exact absurd hev (by simp)
@@ -168,10 +162,10 @@ theorem failed_attempt_keeps_timer (g : G) : step g .attempt = g := by
 /-! ## 5. `no_llgr_dropped` -/
 
 /-- An LLGR timer that a step arms comes with the NO_LLGR routes of its family already dropped. -/
-theorem no_llgr_dropped (g : G) (h : Inv g) (ev : Ev) (hw : EvWF g ev) (f : Fam)
+theorem no_llgr_dropped (g : G) (h : Inv g) (ev : Ev) (f : Fam)
     (hf : f ∈ (step g ev).llgrTimers) (hnew : f ∉ g.llgrTimers) (x : Route) (hx : x ∈ (step g ev).rib)
     (hxf : x.fam = f) : x.noLlgr = false := by
-  rcases (step_inv h ev hw).2 f hf with h1 | h1
+  rcases (step_inv h ev).2 f hf with h1 | h1
   · exact absurd h1 hnew
   · exact h1 x hx hxf
 
@@ -208,7 +202,58 @@ theorem ineligible_no_helper (g : G) (h : Inv g) (s : Sess) (hs : g.sess = some 
   simp only [List.mem_filter] at hy
   simpa using hy.2
 
+/-- An operator-forced peer-down (`force_down`: shutdown / reset / delete / disable / BFD) in ANY
+    state satisfying the invariant ends helper mode altogether: no session, no timer armed, no
+    marked route left — in particular the LLGR period does not start in place of a fired restart
+    timer. -/
+theorem forced_down_ends_helper (g : G) (h : Inv g) :
+    (forceDown g).sess = none ∧ (forceDown g).grTimer = false ∧ (forceDown g).llgrTimers = [] ∧
+    ∀ x ∈ (forceDown g).rib, marked x = false := by
+  obtain ⟨hi, _, hs, _, hgt, hlt⟩ := inv_forceDown' h
+  refine ⟨hs, hgt, hlt, fun x hx => ?_⟩
+  cases hm : marked x with
+  | false => rfl
+  | true =>
+      rcases hi.pending x hx hm with h1 | h1 | ⟨h1, _⟩
+      · rw [hgt] at h1; cases h1
+      · rw [hlt] at h1; cases h1
+      · rw [hs] at h1; cases h1
+
 /-! ## 7. `bounded_lifetime` -/
+
+/-- every armed timer elapses (`wait`, the natural-expiry path): afterwards the restart timer is not
+    armed, and whatever is still marked is covered by an LLGR timer (armed by the restart-timer
+    expiry itself) or by an End-of-RIB awaited on the live session -/
+theorem bounded_lifetime_wait (g : G) (h : Inv g) :
+    (waitAll g).grTimer = false ∧
+    ∀ x ∈ (waitAll g).rib, marked x = true →
+      x.fam ∈ (waitAll g).llgrTimers ∨ ((waitAll g).sess.isSome = true ∧ x.fam ∈ awaitingOf (waitAll g)) := by
+  have hi : Inv (waitAll g) := (step_inv h .wait).1
+  have hgt : (waitAll g).grTimer = false := by
+    have h1 : (fireGr g).grTimer = false := by
+      unfold fireGr
+      by_cases ht : g.grTimer = true
+      · rw [if_pos ht]; exact (inv_grExpired h ht).2.2.2.2
+      · rw [if_neg ht]; simpa using ht
+    have : ∀ (l : List Fam) (g' : G), Inv g' → g'.grTimer = false → (l.foldl fireLlgr g').grTimer = false := by
+      intro l
+      induction l with
+      | nil => exact fun _ _ h => h
+      | cons f l ih =>
+          intro g' hi' hg'
+          refine ih _ (inv_fireLlgr hi' f).1 ?_
+          unfold fireLlgr
+          by_cases hf : g'.llgrTimers.contains f = true
+          · rw [if_pos hf]
+            obtain ⟨rem, hgs, _⟩ := (hi'.timerLl f).mp (by simpa using hf)
+            rw [llgrExp_ls _ rem (by simpa using hgs)]; exact hg'
+          · rw [if_neg hf]; exact hg'
+    exact this _ _ (inv_fireGr h).1 h1
+  refine ⟨hgt, fun x hx hm => ?_⟩
+  rcases hi.pending x hx hm with h1 | h1 | h1
+  · rw [hgt] at h1; cases h1
+  · exact Or.inl h1
+  · exact Or.inr h1
 
 /-- The restart timer fires: afterwards it is not armed, and whatever is still marked is protected
     by the (just armed) LLGR timer of its family. -/
@@ -275,5 +320,24 @@ example : (run [.est [1] (some { fams := [1], nbit := true }) none false, .ann 1
 example : (run [.est [0, 1] (some { fams := [0, 1], nbit := false }) (some [0]) false, .ann 0 0 false false,
       .ann 1 0 false false, .down .io, .grTimer, .llgrTimer 0]).map (fun o => (o.routes.length, o.llgrTimers)) =
     [(0, []), (1, []), (2, []), (2, []), (1, [0]), (0, [])] := by decide
+
+/-- S41: the peer lists family 1 in its GR capability but has no MP-BGP for it on the second session:
+    GR is negotiated for family 0 only, the stale route of family 1 is dropped at re-establishment -/
+example : (run [.est [0, 1] (some { fams := [0, 1], nbit := false }) none false, .ann 1 0 false false, .down .io,
+      .est [0] (some { fams := [0, 1], nbit := false }) none false, .down .admin]).map
+      (fun o => (o.routes.length, o.grTimer, o.restarting)) =
+    [(0, false, false), (1, false, false), (1, true, true), (0, false, true), (0, false, true)] := by decide
+
+/-- S42: disable inside the restart window with LLGR negotiated: the LLGR period does not start -/
+example : (run [.est [0] (some { fams := [0], nbit := false }) (some [0]) false, .ann 0 0 false false, .down .io,
+      .disable]).map (fun o => (o.routes.length, o.grTimer, o.llgrTimers, o.restarting)) =
+    [(0, false, [], false), (1, false, [], false), (1, true, [], true), (0, false, [], false)] := by decide
+
+/-- the checker does reject: a tampered observation (the stale route survives the forced down) fails -/
+example : Spec.check [.est [0] (some { fams := [0], nbit := false }) none false, .ann 0 0 false false, .down .io, .force]
+    ((run [.est [0] (some { fams := [0], nbit := false }) none false, .ann 0 0 false false, .down .io]) ++
+     [{ routes := [{ fam := 0, pfx := 0, stale := true, llgr := false, noLlgr := false, lsc := false }],
+        grTimer := false, llgrTimers := [], restarting := false, up := false }]) =
+    .fail 3 "forced-down-keeps-helper" := by decide
 
 end Rbgp.Gr.Helper.Props
